@@ -139,6 +139,14 @@ pub fn unknown_payloads() -> Vec<Val> {
     v.push(Val::I64(0));
     v.push(Val::Double(0));
     v.push(Val::Uuid([0; 16]));
+    // a map whose struct values contain a struct with a variable-size field (an iterative skipper
+    // keeps key/value parity on its stack), one and two entries, and the same as list elements
+    let inner = |s: &[u8]| Val::Struct(vec![(1, Val::I64(7)), (2, Val::Struct(vec![(1, Val::Bin(s.to_vec()))])), (3, Val::I16(-2))]);
+    v.push(Val::Map(T::I32, T::Struct, vec![(Val::I32(1), inner(b"abc"))]));
+    v.push(Val::Map(T::I32, T::Struct, vec![(Val::I32(1), inner(b"abc")), (Val::I32(2), inner(b""))]));
+    v.push(Val::Map(T::Struct, T::Struct, vec![(inner(b"k"), inner(b"value"))]));
+    v.push(Val::List(T::Struct, vec![inner(b"x"), inner(b"yz")]));
+    v.push(Val::Map(T::Bin, T::Map, vec![(Val::Bin(b"m".to_vec()), Val::Map(T::I8, T::Struct, vec![(Val::I8(1), inner(b"deep"))]))]));
     v
 }
 
@@ -669,6 +677,24 @@ fn faults_of(enc: &[u8], ann: &[rc::Ann], wire: rc::Proto, flips: bool) -> Vec<G
     out
 }
 
+/// every non-empty string/binary leaf repeated up to at least `n` bytes (distinct leaves stay distinct)
+fn stretch(v: &Val, n: usize) -> Val {
+    match v {
+        Val::Bin(b) if !b.is_empty() && b.len() < n => {
+            let mut o = Vec::with_capacity(n + b.len());
+            while o.len() < n {
+                o.extend_from_slice(b);
+            }
+            Val::Bin(o)
+        }
+        Val::Struct(f) => Val::Struct(f.iter().map(|(i, x)| (*i, stretch(x, n))).collect()),
+        Val::List(t, e) => Val::List(*t, e.iter().map(|x| stretch(x, n)).collect()),
+        Val::Set(t, e) => Val::Set(*t, e.iter().map(|x| stretch(x, n)).collect()),
+        Val::Map(k, t, e) => Val::Map(*k, *t, e.iter().map(|(a, b)| (stretch(a, n), stretch(b, n))).collect()),
+        o => o.clone(),
+    }
+}
+
 fn seed_values(g: &Gen, d: &TypeDef) -> Vec<Val> {
     match d.kind.as_str() {
         "struct" => {
@@ -676,6 +702,13 @@ fn seed_values(g: &Gen, d: &TypeDef) -> Vec<Val> {
             let m = g.one_def(d, 0, false, 0);
             if m != v[0] {
                 v.push(m);
+            }
+            // payloads longer than any small-buffer threshold (the representative strings are short)
+            for n in if g.thorough { vec![40, 300, 5000] } else { vec![40] } {
+                let s = stretch(&v[0], n);
+                if s != v[0] {
+                    v.push(s);
+                }
             }
             v
         }
